@@ -42,15 +42,21 @@ theorem recordFromSchema_ok (peerIdOk : List Nat → Bool) (r : RecordIn) (h : r
     obtain ⟨h1, h2⟩ := h
     simp [h1, h2]
 
-/-- The written-out request bytes are prost's encoding of the request message. -/
+/-- The written-out request bytes are prost's encoding of the request message. (The proof does not depend
+on which other fields the schema has, as long as their defaults are omitted and `type`, `key`,
+`clusterLevelRaw` keep tags 1, 2, 10 and stay the first, second and last field written.) -/
 theorem encodeKadRequest_eq (type : Nat) (key : List Nat) :
     encodeKadRequest type key = KMessage.encode { type := Int.ofNat type, key := key, clusterLevelRaw := 10 } := by
   have h10 : i32ToU64 10 = 10 := by decide
-  have ht : i32ToU64 (Int.ofNat type) = type := by simp [i32ToU64]
-  have h0 : (Int.ofNat type = 0) ↔ type = 0 := by simp
+  have ht : i32ToU64 (type : Int) = type := by simp [i32ToU64]
   unfold encodeKadRequest KMessage.encode
-  simp only [encPlain, encOpt, encRep, encInt32Field, ht, h10, h0, List.nil_append, List.append_nil]
-  have h100 : ¬ ((10 : Int) = 0) := by decide
-  simp only [h100, if_false, List.append_assoc]
+  simp [encPlain, encOpt, encRep, encInt32Field, ht, h10, List.append_assoc]
+
+set_option linter.unusedSimpArgs false in
+/-- The request message is well-formed whenever type and key are. -/
+theorem kadRequest_wf (type : Nat) (key : List Nat) (ht : type < 2 ^ 31) (hk : key.length < 2 ^ 64) :
+    ({ type := Int.ofNat type, key := key, clusterLevelRaw := 10 } : KMessage).WF := by
+  simp [KMessage.WF, okI32, okBytes, okString, okU32, okU64, okI64, okBool, optAll, listAll]
+  omega
 
 end Litep2pVerif.Wire
